@@ -18,7 +18,7 @@ TAGS = {
     'Misaligned': {'C03'},
     'CountLeProposals': {'C02'},
     'ExpSplitSane': {'C02', 'C12'},
-    'StatsFromStored': {'C02'},
+    'StatsFromStored': {'C02', 'C12'},
     'Residuals': {'C02'},
     'StatsFunctional': {'C12', 'C02'},
     'NLikeExact': {'C10'},
